@@ -280,6 +280,12 @@ def twoPhaseT (P : Program) (nm : List String → String) (ρ : Store) : J × Li
   ((evalRT P.table P.nfuel ρ [] ⟨P.top.callee, 0, 0⟩ (staticProgramT P nm).1.exp),
    instsTList P.table P.nfuel ρ [] [] (staticProgramT P nm).2)
 
+/-- a stage instance of den as the code delivers it: "no value" (`dnull`) rendered as JSON null -/
+def eraseInst (i : Inst) : Inst := { i with args := J.erase i.args }
+
+/-- den modulo the rendering of `dnull` as null -/
+def eraseRun (d : J × List Inst) : J × List Inst := (J.erase d.1, d.2.map eraseInst)
+
 /-! ## the fork roots a node depends on (`resolveForks`), for the comparison with the compiler -/
 
 mutual
